@@ -2,7 +2,7 @@
    (ws_begin, ws_probe, ws_upgr, decide). *)
 From Coq Require Import NArith List Bool.
 Import ListNotations.
-From EIO Require Import Server ServerInv ServerProofs ServerCor.
+From EIO Require Import Server ServerInv ServerProofs ServerCor ServerUpg.
 Open Scope N_scope.
 
 (* any first frame other than PING 'probe' leaves the session on polling: not upgrading, upgraded flag untouched *)
@@ -30,8 +30,25 @@ Theorem c06_queue_conserved_across_upgrade : forall cfg ops,
   forall i ss, alookup i (store s) = Some ss -> s_accepted ss = s_taken ss ++ mids_of (s_q ss).
 Proof. exact conservation. Qed.
 
+(* for every history (requests, frames, closes, API calls, cancellations, clock advances) and every schedule: a session is
+   marked `upgrading` - the state in which polling requests are refused - only while a task of the WebSocket handshake for
+   that very session exists (waiting for the PING probe or for the UPGRADE packet).  A handshake that failed, was abandoned,
+   was cancelled or lost a race therefore never leaves the mark behind *)
+Theorem c06_upgrading_only_during_handshake : forall cfg ops,
+  let s := fst (run_sched cfg ops (init cfg) []) in
+  forall i ss, alookup i (store s) = Some ss -> s_upgrading ss = true ->
+  exists t e, alookup t (tasks s) = Some e /\ handshake_task_of i e.
+Proof. exact upgrading_only_during_handshake. Qed.
+Theorem c06_no_handshake_polling_usable : forall cfg ops,
+  let s := fst (run_sched cfg ops (init cfg) []) in
+  forall i ss, alookup i (store s) = Some ss ->
+  (forall t e, alookup t (tasks s) = Some e -> ~ handshake_task_of i e) -> s_upgrading ss = false.
+Proof. exact no_handshake_not_upgrading. Qed.
+
 Print Assumptions c06_wrong_first_frame.
 Print Assumptions c06_failure_resets.
 Print Assumptions c06_transport_config.
 Print Assumptions c06_disallowed_transport_never_used.
 Print Assumptions c06_queue_conserved_across_upgrade.
+Print Assumptions c06_upgrading_only_during_handshake.
+Print Assumptions c06_no_handshake_polling_usable.
